@@ -126,6 +126,8 @@ def judge(h, params, values, notes):
 def job(h, params):
     ctx, ex = D.execute(PROG, FR + "." + h, intmode="int", params=params, setup=setup, harness_pkgs=[FR], globals_init=GLOBALS, unwind=8)
     obs = spec(h, ctx, ex, params)
+    # satisfiable-side help for the reachability witness only: a concrete input (every byte 1, limbs 1)
+    ctx.reach_hint = {n: 1 for n in ctx.vars}
     recs = D.discharge_all(ctx, extra=obs, timeout_ms=120000, skip_reach=False)
     return {"group": "%s %s" % (h, params), "recs": recs, "info": ctx_info(ctx), "harness": h, "params": params}
 
